@@ -327,8 +327,8 @@ def run_history(case):
             if what == 'run':
                 inputs, extra, kills = step[1], step[2], step[3]
                 if not alive_now:
-                    out.label('run_skipped_no_live_worker')
-                    continue
+                    # nobody can work: the run can only end by PoolError (a normal return would have to hold every result)
+                    out.label('run_without_live_worker')
                 sim.kills_left = kills
                 ids_before = {w.index: w.id for w in sim.workers}
                 enq_before = {w.index: 0 for w in sim.workers}
